@@ -1370,6 +1370,9 @@ def oracle_case(ctx, T, mat, case):
                              None, case.get("opt"))
         if m:
             out.append(m)
+    elif k == "rangetext":
+        obs = rangetext_run(T, case["content"], case["range"], case.get("bs"))
+        out.extend(rangetext_oracle(rangetext_content(case["content"]), case["range"], obs))
     elif k == "fileapp":
         content = bytes.fromhex(case["content"])
         if case.get("methods"):
@@ -1432,6 +1435,219 @@ def check_root(T, mat, spelling):
     return None
 
 
+# --------------------------------------------------------------------------- Range header TEXT layer (Model/C17_rangetext.v)
+RT_IMPORTS = IMPORTS + ["Webob.Model.C17_rangetext"]
+
+
+def rangetext_content(spec):
+    """spec: ["hex", <hex>] literal bytes, or ["pat", n] = bytes(i % 251 for i in range(n)) (large files, built inside Coq too)."""
+    if spec[0] == "hex":
+        return bytes.fromhex(spec[1])
+    return bytes(i % 251 for i in range(spec[1]))
+
+
+def rangetext_content_coq(spec):
+    if spec[0] == "hex":
+        return cstr(bytes.fromhex(spec[1]))
+    return "(map (fun i => N.of_nat (Nat.modulo i 251)) (seq 0 %d))" % spec[1]
+
+
+def rangetext_run(T, spec, rh, bs):
+    """Real FileApp, GET with HTTP_RANGE = rh (None: no header), BLOCK_SIZE patched to bs ->
+    [status, Content-Range text | None, Content-Length text, body] | Err."""
+    import webob.static as st
+    d = os.path.join(T, "rt")
+    os.makedirs(d, exist_ok=True)
+    p = os.path.join(d, "f.bin")
+    with open(p, "wb") as f:
+        f.write(rangetext_content(spec))
+    res = get_full(st.FileApp(p), blank("/x", "GET", rh), bs)
+    if isinstance(res, fw.Err):
+        return res
+    stc, headers, body = res
+    return [stc, hdr(headers, "Content-Range"), hdr(headers, "Content-Length") or "", body]
+
+
+def rangetext_oracle(content, rh, obs):
+    """The property on one observation: 200 = the file, 206 = the slice its own Content-Range names (and, for the strict
+    RFC 7233 single-range spellings, the requested one), 416 = `bytes */len`; nothing else."""
+    n = len(content)
+    if isinstance(obs, fw.Err):
+        return [("rangetext:raises", "FileApp GET Range=%r on %d bytes raised %s" % (rh, n, obs.name))]
+    stc, cr, cl, body = obs
+    if stc == 200:
+        if body != content or cr is not None or cl != str(n):
+            return [("rangetext:wrong-200", "GET Range=%r on %d bytes: 200 with body of %d bytes, Content-Range %r, Content-Length %r"
+                     % (rh, n, len(body), cr, cl))]
+        m = re.fullmatch(r"bytes=(\d{1,30})-(\d{0,30})", rh or "")
+        if m and int(m.group(1)) < n and (not m.group(2) or int(m.group(1)) <= int(m.group(2))):
+            return [("rangetext:satisfiable-range-ignored", "GET Range=%r on %d bytes answered 200" % (rh, n))]
+        return []
+    if stc == 206:
+        pc = parse_cr(cr)
+        if not isinstance(pc, list) or len(pc) != 3 or not (0 <= pc[0] < pc[1] <= n) or pc[2] != n:
+            return [("rangetext:content-range-out-of-bounds", "GET Range=%r on %d bytes: 206 with Content-Range %r" % (rh, n, cr))]
+        if body != content[pc[0]:pc[1]] or cl != str(pc[1] - pc[0]):
+            return [("rangetext:wrong-slice", "GET Range=%r on %d bytes: Content-Range %r but body %r... (Content-Length %r)"
+                     % (rh, n, cr, body[:20], cl))]
+        m = re.fullmatch(r"bytes=(\d{0,30})-(\d{0,30})", rh or "")
+        if m and (m.group(1) or m.group(2)):
+            a, b = m.group(1), m.group(2)
+            if a:
+                want = (int(a), min(int(b) + 1, n) if b else n)
+            else:
+                want = (max(n - int(b), 0), n)
+            if want != (pc[0], pc[1]):
+                return [("rangetext:wrong-range", "GET Range=%r on %d bytes: served %d-%d, requested slice is %d-%d"
+                         % (rh, n, pc[0], pc[1], want[0], want[1]))]
+        return []
+    if stc == 416:
+        if cr != "bytes */%d" % n or content and len(content) > 3 and content in body:
+            return [("rangetext:wrong-416", "GET Range=%r on %d bytes: 416 with Content-Range %r" % (rh, n, cr))]
+        return []
+    return [("rangetext:wrong-status", "GET Range=%r on %d bytes answered %r" % (rh, n, stc))]
+
+
+def range_texts(rng, n, count):
+    """Range header texts for a file of n bytes: valid, suffix, open-ended, multi-range, malformed, huge, whitespace variants."""
+    near = [0, 1, 2, max(n - 2, 0), max(n - 1, 0), n, n + 1, n + 7, 2 * n + 3]
+    out = [None, "", "bytes", "bytes=", "bytes=-", "bytes=-0", "bytes=0-", "bytes=0-0", "bytes=-1", "bytes=--1", "bytes=1--2",
+           "bytes=a-b", "octets=0-1", " bytes=0-1", "bytes=0-1x", "bytes=0-1,", "bytes=0-0,1-1", "bytes=0-0, -1", "bytes=+0-1",
+           "bytes=1_0-2_0", "bytes=0x1-2", "bytes=\xb2-3", "bytes=0-\xb9", "BYTES=0-1", "Bytes = 0 - 1 ", "bytes=0-1\n", "bytes=0-1\n\n",
+           "bytes=0-1 \n", "bytes=\t0-1", "bytes=0-1\t", "bytes=0-1\r\n", "bytes =0-", "bytes= -1", "bytes=- 1", "bytes=0 -", "bytes  =  -  2  ",
+           "bytes=00-01", "bytes=-00", "bytes=-01", "bytes=1-0", "bytes=2-1", "bytes=0-%d" % 10 ** 20, "bytes=%d-" % 10 ** 20,
+           "bytes=-%d" % 10 ** 20, "bytes=%d-%d" % (10 ** 100, 10 ** 100 + 1), "bytes=0-0-0", "bytes=0", "bytes=-1-", "bytes==0-1",
+           "bytes=0-1;q=1", "bytes:0-1", "bytes=0–1".encode("utf-8").decode("latin-1"), "bytEs=1-", "bytes=0-1\x0b", "\nbytes=0-1"]
+    while len(out) < count:
+        form = rng.choice(["fl", "fl", "fl", "open", "open", "suffix", "suffix", "ws", "multi", "junk", "zeros"])
+        a, b = rng.choice(near), rng.choice(near)
+        if form == "fl":
+            if a > b and rng.random() < 0.8:
+                a, b = b, a
+            t = "bytes=%d-%d" % (a, b)
+        elif form == "open":
+            t = "bytes=%d-" % a
+        elif form == "suffix":
+            t = "bytes=-%d" % rng.choice(near + [1, 2, 3])
+        elif form == "ws":
+            sp = lambda: " " * rng.choice([0, 0, 1, 2])  # noqa
+            t = rng.choice(["bytes", "BYTES", "Bytes", "bYTES"]) + sp() + "=" + sp() + rng.choice(["", str(a)]) + sp() + "-" + sp() + \
+                rng.choice(["", str(b)]) + sp() + rng.choice(["", "", "\n", " \n", "\t"])
+        elif form == "multi":
+            t = "bytes=%d-%d,%s" % (a, b, rng.choice(["%d-" % b, "-%d" % a, "%d-%d" % (b, b + 1), " 0-0"]))
+        elif form == "zeros":
+            t = "bytes=%s%d-%s" % ("0" * rng.randrange(1, 5), a, rng.choice(["", "0" * rng.randrange(1, 4) + str(b)]))
+        else:
+            t = "".join(rng.choice(list("bytes=-0123456789 ,\n*/xB")) for _ in range(rng.randrange(0, 14)))
+            if rng.random() < 0.5:
+                t = "bytes=" + t
+        out.append(t)
+    return out
+
+
+def corr_rangetext(ctx, T):
+    from webob.byterange import ContentRange
+    from webob.descriptors import parse_range
+    rng = ctx.sub_rng("rangetext")
+    # (a) real FileApp vs serve_range_text; BLOCK_SIZE patched to 8 (sizes 0, 1, 2, BLOCK_SIZE-1, BLOCK_SIZE, BLOCK_SIZE+1, random)
+    cases, seen = [], set()
+    sizes = [0, 1, 2, 7, 8, 9] + [rng.randrange(3, 40) for _ in range(ctx.scale(4, 12))]
+    per = ctx.scale(520, 3000) // len(sizes) + 1
+    plan = []
+    for n in sizes:
+        spec = ["hex", bytes(rng.randrange(256) for _ in range(n)).hex()]
+        bs = 8 if n in (0, 1, 2, 7, 8, 9) else rng.choice([1, 3, 8, 16])
+        for t in range_texts(rng, n, per):
+            plan.append((spec, t, bs))
+    # the real BLOCK_SIZE: files of BLOCK_SIZE-1, BLOCK_SIZE, BLOCK_SIZE+1 bytes (content built by the same formula on both sides)
+    import webob.static as st
+    B0 = st.BLOCK_SIZE
+    if isinstance(B0, int) and 0 < B0 <= (1 << 17):
+        for n in (B0 - 1, B0, B0 + 1):
+            for t in ("bytes=%d-%d" % (B0 - 3, B0 + 5), "bytes=-3", "bytes=%d-" % (B0 - 2), "bytes=%d-" % (n - 1), "bytes=%d-" % n,
+                      "bytes=0-0", "bytes=%d-%d" % (B0 - 1, B0 - 1), "bytes = %d - %d \n" % (B0, B0)):
+                plan.append((["pat", n], t, None))
+    # digit strings at the int() limit
+    for t in ("bytes=%s-" % ("1" * 4300), "bytes=%s-" % ("1" * 4301), "bytes=-%s" % ("0" * 4300 + "1"), "bytes=0-%s" % ("9" * 4301),
+              "bytes=%s1-" % ("0" * 4299), "bytes=%s-2" % ("0" * 4301)):
+        plan.append((["hex", "0a0b0c0d"], t, 8))
+    big = []
+    for spec, t, bs in plan:
+        key = (tuple(spec), t, bs)
+        if key in seen:
+            continue
+        seen.add(key)
+        obs = rangetext_run(T, spec, t, bs)
+        if spec[0] == "pat":      # files of the real BLOCK_SIZE +-1: too large for Coq literals, checked by the oracle only
+            big.append((None, obs, {"kind": "rangetext", "content": spec, "range": t, "bs": bs}))
+            continue
+        eff = bs if bs else B0
+        lit = "(KFileIter %s [], %s, %s)" % (cZ(eff), rangetext_content_coq(spec), copt(None if t is None else cstr(t)))
+        cases.append((lit, obs, {"kind": "rangetext", "content": spec, "range": t, "bs": bs}))
+    bad = ctx.corr("serve-range-text", RT_IMPORTS, "(fun c : iter_kind * bytes * option str => let '(k, content, h) := c in "
+                   "v_tresp (serve_range_text k content h))", cases, in_type="(iter_kind * bytes * option str)", shard=150)
+    for i in bad[:6]:
+        c = cases[i][2]
+        msgs = rangetext_oracle(rangetext_content(c["content"]), c["range"], cases[i][1])
+        if msgs:
+            for key, msg in msgs:
+                ctx.fail(key, msg, c, True, "corr")
+        else:
+            ctx.broken.append("correspondence serve-range-text: model and implementation disagree on %s (implementation gave %r)"
+                              % (json.dumps(c)[:300], cases[i][1] if isinstance(cases[i][1], fw.Err) else cases[i][1][:3]))
+    # the property on every observation of (a), independently of the model
+    nt = 0
+    for lit, obs, c in cases + big:
+        msgs = rangetext_oracle(rangetext_content(c["content"]), c["range"], obs)
+        nt += (not isinstance(obs, fw.Err)) and obs[0] in (206, 416)
+        for key, msg in msgs:
+            ctx.fail(key, msg, c, True, "rangetext")
+    ctx.oracle_count("rangetext", len(cases) + len(big), nt)
+
+    # (b) descriptors.parse_range (req.range) vs req_range: [start, end, str(range)]
+    cases, seen = [], set()
+    for t in range_texts(rng, rng.choice([0, 5, 10]), ctx.scale(420, 2500)):
+        if t is None or t in seen:
+            continue
+        seen.add(t)
+        r = fw.catch(parse_range, t)
+        if r is not None and not isinstance(r, fw.Err):
+            r = [r.start, r.end, str(r)]
+        cases.append((cstr(t), r, {"range_text": t}))
+    bad = ctx.corr("req-range", RT_IMPORTS, "(fun h : str => v_req_range (req_range (Some h)))", cases, in_type="str")
+    for i in bad[:5]:
+        ctx.broken.append("model of descriptors.parse_range/Range.parse/Range.__str__ disagrees with the implementation on %r "
+                          "(implementation %r)" % (cases[i][2], cases[i][1]))
+
+    # (c) ContentRange.parse vs cr_parse; str(ContentRange(...)) read back
+    cases, seen = [], set()
+    texts = ["", "bytes", "bytes ", "bytes */*", "bytes */0", "bytes */10", "bytes 0-0/1", "bytes 0-0/*", "bytes 0-9/10", "bytes 0-10/10",
+             "bytes 5-4/10", "bytes 5-5/5", "bytes 0-0/0", "Bytes 0-0/1", "bytes  0-0/1", "bytes 0-0/1 trailing", "bytes 0-0/1x", "bytes */1*",
+             "bytes 0-/1", "bytes -1/1", "bytes *-1/2", "bytes 0-1/", "bytes 0-1", "bytes 0 - 1/2", "bytes=0-1/2", "bytes */", "bytes *",
+             "bytes 00-01/002", "bytes 1-2/3\n", " bytes 1-2/3", "bytes 1-2/3/4", "bytes 1-2//3", "bytes \xb2-3/4", "bytes 10-20/15",
+             "bytes %d-%d/%d" % (10 ** 20, 10 ** 20 + 1, 10 ** 21)]
+    for _ in range(ctx.scale(120, 800)):
+        a, b, ln = rng.randrange(0, 30), rng.randrange(0, 30), rng.randrange(0, 30)
+        texts.append("bytes %d-%d/%s" % (a, b, rng.choice([str(ln), "*"])))
+        if a < b:
+            texts.append(str(ContentRange(a, b, rng.choice([None, max(ln, b), ln if ln > a else a + 1]))))
+    for _ in range(ctx.scale(160, 800)):
+        t = "".join(rng.choice(list("bytes -*/0123456789x")) for _ in range(rng.randrange(0, 9)))
+        texts.append(rng.choice(["bytes ", "bytes ", "bytes */", "bytes 1-2/", ""]) + t)
+    for t in texts:
+        if t in seen:
+            continue
+        seen.add(t)
+        r = fw.catch(ContentRange.parse, t)
+        if r is not None and not isinstance(r, fw.Err):
+            r = [r.start, r.stop, r.length]
+        cases.append((cstr(t), r, {"content_range_text": t}))
+    bad = ctx.corr("content-range-parse", RT_IMPORTS, "(fun v : str => v_cr (cr_parse v))", cases, in_type="str")
+    for i in bad[:5]:
+        ctx.broken.append("model of ContentRange.parse disagrees with the implementation on %r (implementation %r)"
+                          % (cases[i][2], cases[i][1]))
+
+
 # --------------------------------------------------------------------------- what is modelled (not verified) / only exercised
 # every implementation object the Gallina model (coq/Model/C17_path.v, C17_static.v) mirrors by hand
 MODELLED = [
@@ -1447,6 +1663,12 @@ MODELLED = [
     "webob.response:EmptyResponse",                  # HEAD: body = []
     "webob.byterange:Range.range_for_length", "webob.byterange:Range.content_range",      # range_for_length
     "webob.byterange:_is_content_range_valid",       # cr_valid
+    # the Range header TEXT layer, Model/C17_rangetext.v over C06's Model/C06_ByteRange.v (correspondences serve-range-text,
+    # req-range, content-range-parse)
+    "webob.descriptors:parse_range",                 # req_range
+    "webob.byterange:Range.parse", "webob.byterange:_rx_range", "webob.byterange:Range.__str__",   # range_parse, match_range, range_str
+    "webob.byterange:ContentRange.__init__", "webob.byterange:ContentRange.__str__",               # mk_content_range, content_range_str
+    "webob.byterange:ContentRange.parse", "webob.byterange:_rx_content_range",                     # cr_parse, match_content_range
 ]
 # CPython functions mirrored by coq/Model/C17_path.v (isabs, pjoin, normpath, abspath).  posixpath is a frozen module, so
 # inspect cannot show its source and ctx.modelled() would only hash the function's repr: recorded by stdlib_modelled() instead.
@@ -1456,8 +1678,6 @@ REGENERATED = []          # nothing is translated from the source for C17 (coq/G
 # or are compared as text by the oracle)
 ORACLE_ONLY = [
     "webob.static:FileApp.__init__", "webob.static:FileIter.__init__", "webob.static:BLOCK_SIZE",
-    "webob.byterange:Range.parse", "webob.byterange:_rx_range", "webob.byterange:Range.__str__",
-    "webob.byterange:ContentRange.__init__", "webob.byterange:ContentRange.__str__",
     "webob.request:BaseRequest.blank", "webob.request:environ_from_url", "webob.request:BaseRequest.path_info",
     "webob.request:BaseRequest.path_url", "webob.request:BaseRequest.query_string", "webob.request:BaseRequest.range",
     "webob.request:BaseRequest.get_response", "webob.request:BaseRequest.call_application",
@@ -1912,6 +2132,9 @@ def _run(ctx, T, mat):
     for i in bad[:5]:
         ctx.broken.append("model of Range.range_for_length disagrees with the implementation on %r (implementation %r)"
                           % (cases[i][2], cases[i][1]))
+
+    # ------------------------------------------------------------------ correspondence 7: the Range header text layer
+    corr_rangetext(ctx, T)
 
     # ------------------------------------------------------------------ oracle A+B: containment, exact bytes, non-interference
     rng = ctx.sub_rng("oracle-dir")
